@@ -13,18 +13,54 @@ open WuffsVerif.JpegIdct WuffsVerif.Gen.C09
 /-- a 10-bit index read as a signed value -/
 def signed10 (i : Nat) : Int := if i < 512 then (i : Int) else (i : Int) - 1024
 
-/-- The table of std/jpeg/common_consts.wuffs (regenerated from the source) IS
-"bias by 128 and clamp to 0..255" of the signed reading of its 10-bit index. -/
-theorem bias_and_clamp_table_spec :
-    (List.range 1024).all (fun i => biasAndClamp.getD i 0 == clampByte (signed10 i)) = true := by
+/-- the table's intended content, in natural numbers -/
+def expectedNat (i : Nat) : Nat :=
+  if i < 128 then 128 + i else if i < 512 then 255 else if i < 896 then 0 else i - 896
+
+/-- single pass over the table literal -/
+def checkTable : List UInt8 → Nat → Bool
+  | [], _ => true
+  | b :: rest, i => (b.toNat == expectedNat i) && checkTable rest (i + 1)
+
+theorem checkTable_get (l : List UInt8) (k : Nat) (h : checkTable l k = true) :
+    ∀ i (hi : i < l.length), (l[i]).toNat = expectedNat (k + i) := by
+  induction l generalizing k with
+  | nil => intro i hi; simp at hi
+  | cons b rest ih =>
+    intro i hi
+    simp only [checkTable, Bool.and_eq_true, beq_iff_eq] at h
+    cases i with
+    | zero => simpa using h.1
+    | succ j =>
+      have := ih (k + 1) h.2 j (by simpa using hi)
+      simp only [List.getElem_cons_succ]
+      rw [this]; congr 1; omega
+
+/-- The table of std/jpeg/common_consts.wuffs (regenerated from the source on every run)
+has 1024 entries and entry `i` is `expectedNat i`. -/
+theorem bias_and_clamp_table_checked :
+    checkTable biasAndClamp.toList 0 = true ∧ biasAndClamp.size = 1024 := by
   decide +kernel
 
+theorem expectedNat_eq_clamp (i : Nat) (h : i < 1024) : expectedNat i = clampNat (signed10 i) := by
+  unfold expectedNat clampNat signed10
+  repeat' split
+  all_goals omega
+
+/-- The table IS "bias by 128 and clamp to 0..255" of the signed reading of its 10-bit index. -/
 theorem bias_and_clamp_get (i : Nat) (h : i < 1024) :
     biasAndClamp.getD i 0 = clampByte (signed10 i) := by
-  have := bias_and_clamp_table_spec
-  rw [List.all_eq_true] at this
-  have := this i (List.mem_range.mpr h)
-  simpa using this
+  obtain ⟨hc, hs⟩ := bias_and_clamp_table_checked
+  have hi : i < biasAndClamp.size := by omega
+  have hl : i < biasAndClamp.toList.length := by simpa using hi
+  have h1 := checkTable_get _ 0 hc i hl
+  have h2 : biasAndClamp.getD i 0 = biasAndClamp.toList[i] := by
+    simp [Array.getD, hi]
+  rw [h2]
+  unfold clampByte
+  have h1' : (biasAndClamp.toList[i]).toNat = expectedNat i := by simpa using h1
+  rw [← expectedNat_eq_clamp i h, ← h1']
+  simp
 
 /-- reduction of `v` to the 10-bit signed range: what `& 1023` + the table's signed reading do -/
 def wrap10 (v : Int) : Int := (v + 512) % 1024 - 512
@@ -42,23 +78,11 @@ theorem finalWrap_eq (v : Int) : finalWrap v = clampByte (wrap10 v) := by
 
 /-- AVX2 final step = clamp of the value itself (saturation) -/
 theorem finalSat_eq (v : Int) : finalSat v = clampByte v := by
-  unfold finalSat clampByte sat8 sat16
-  by_cases h1 : v + 128 < 0
-  · have : v < -128 := by omega
-    simp only [h1, ↓reduceIte]
-    split <;> split <;> (try omega) <;> (try (split <;> (try omega))) <;> simp_all <;> omega
-  · by_cases h2 : v + 128 > 255
-    · simp only [h1, h2, ↓reduceIte]
-      split <;> split <;> (try omega) <;> (try (split <;> (try omega))) <;> simp_all <;> omega
-    · simp only [h1, h2, ↓reduceIte]
-      have e : sat8' v = v := rfl
-      split <;> (try omega)
-      split <;> (try omega)
-      split <;> (try omega)
-      split <;> (try omega)
-      congr 1
-      omega
-where sat8' (v : Int) : Int := v
+  unfold finalSat clampByte
+  congr 1
+  unfold clampNat sat8 sat16
+  repeat' split
+  all_goals omega
 
 /-- `idct_variants_agree_in_range`: if the exact reconstruction `v` of a sample lies in the
 10-bit range −512..511 about the bias, wrap-modulo-1024-then-table (portable) and
@@ -75,27 +99,36 @@ darkest value while the AVX2 code saturates to the brightest, and symmetrically 
 theorem idct_variants_differ_outside_hi (v : Int) (h : 512 ≤ v ∧ v ≤ 895) :
     finalWrap v = 0 ∧ finalSat v = 255 := by
   rw [finalWrap_eq, finalSat_eq]
-  unfold wrap10 clampByte
-  constructor
-  · have : (v + 512) % 1024 - 512 + 128 < 0 := by omega
-    simp [this]
-  · have h1 : ¬ (v + 128 < 0) := by omega
-    have h2 : v + 128 > 255 := by omega
-    simp [h1, h2]
+  unfold clampByte
+  have a : clampNat (wrap10 v) = 0 := by
+    unfold clampNat wrap10
+    repeat' split
+    all_goals omega
+  have b : clampNat v = 255 := by
+    unfold clampNat
+    repeat' split
+    all_goals omega
+  rw [a, b]; exact ⟨rfl, rfl⟩
 
 theorem idct_variants_differ_outside_lo (v : Int) (h : -896 ≤ v ∧ v ≤ -513) :
     finalWrap v = 255 ∧ finalSat v = 0 := by
   rw [finalWrap_eq, finalSat_eq]
-  unfold wrap10 clampByte
-  constructor
-  · have h1 : ¬ ((v + 512) % 1024 - 512 + 128 < 0) := by omega
-    have h2 : (v + 512) % 1024 - 512 + 128 > 255 := by omega
-    simp [h1, h2]
-  · have : v + 128 < 0 := by omega
-    simp [this]
+  unfold clampByte
+  have a : clampNat (wrap10 v) = 255 := by
+    unfold clampNat wrap10
+    repeat' split
+    all_goals omega
+  have b : clampNat v = 0 := by
+    unfold clampNat
+    repeat' split
+    all_goals omega
+  rw [a, b]; exact ⟨rfl, rfl⟩
 
-/-- non-vacuity: the boundary values -/
-example : finalWrap 511 = finalSat 511 ∧ finalWrap (-512) = finalSat (-512) ∧
-    finalWrap 512 = 0 ∧ finalSat 512 = 255 := by decide
+/-- non-vacuity: the range hypothesis is satisfiable at both ends, and 512 is already outside -/
+example : finalWrap 511 = finalSat 511 ∧ finalWrap (-512) = finalSat (-512) :=
+  ⟨idct_variants_agree_in_range 511 (by omega), idct_variants_agree_in_range (-512) (by omega)⟩
+example : finalWrap 512 ≠ finalSat 512 := by
+  have := idct_variants_differ_outside_hi 512 (by omega)
+  rw [this.1, this.2]; decide
 
 end WuffsVerif.Props.C09
